@@ -17,7 +17,7 @@ BETA = z3.Function("BETA_CUR", z3.IntSort(), z3.RealSort())
 
 
 # --------------------------------------------------------------------------- compute_posterior
-def posterior(ctx, resample, trim, ret_blobs, ret_logw, have_blobs):
+def posterior(ctx, resample, trim, ret_blobs, ret_logw, have_blobs, replayer="c12_posterior", records_only=False):
     info = {}
 
     def h_logw(I, st, args, kw, node):
@@ -105,6 +105,8 @@ def posterior(ctx, resample, trim, ret_blobs, ret_logw, have_blobs):
                                                         logl.at(r) == fns["logl"](tt(iota(r)), off(iota(r))),
                                                         *( [bl.at(r) == fns["blobs"](tt(iota(r)), off(iota(r)))] if bl is not None else []),
                                                         *( [lw.at(r) == LWf(iota(r))] if lw is not None else []))))))
+        if records_only:          # C07: whole records only; the weight clauses are C12's
+            return g
         # positivity of sum exp(.) for the untrimmed/unresampled normalisation (L-SUM-pos rule)
         exps = [a for (a, P) in st.ghost.get("sumarrs", []) if a.prov and a.prov[0] == "exp"]
         if exps:
@@ -118,7 +120,7 @@ def posterior(ctx, resample, trim, ret_blobs, ret_logw, have_blobs):
         return g
 
     name = f"resample={int(resample)},trim={int(trim)},blobs={int(ret_blobs)},logw={int(ret_logw)},have_blobs={int(have_blobs)}"
-    ctx.verify(name, CORE, "SamplerCore.compute_posterior", setup, post, registry=reg, extras=ext_records(), replayer="c12_posterior")
+    ctx.verify(name, CORE, "SamplerCore.compute_posterior", setup, post, registry=reg, extras=ext_records(), replayer=replayer)
 
 
 # --------------------------------------------------------------------------- _not_termination, run_sampling, evidence
